@@ -141,6 +141,7 @@ class Net:
         a = FakeStream(self, addr_a, addr_b)
         b = FakeStream(self, addr_b, addr_a)
         a.peer, b.peer = b, a
+        self.log.append(("sopen", self.loop.time(), addr_a, addr_b))      # (L1 stream replay, harness/l1_stream.py)
         return a, b
 
 
@@ -242,7 +243,10 @@ class FakeStream:
     async def send(self, data):
         await anyio.lowlevel.checkpoint_if_cancelled()      # a real socket's send is a cancellation point
         if self.closed or self.peer.closed:
+            self.net.log.append(("swfail", self.net.loop.time(), self.local, self.remote, bytes(data)))
             raise anyio.ClosedResourceError
+        # one entry per write() call, whatever the chunker / the fate does with it (L1 stream replay)
+        self.net.log.append(("swrite", self.net.loop.time(), self.local, self.remote, bytes(data)))
         if getattr(self.peer, "never_reads", False):
             # back-pressure: the peer does not read; once its (finite) receive window is full the write blocks for good
             self.peer.unread = getattr(self.peer, "unread", 0) + len(data)
@@ -267,9 +271,12 @@ class FakeStream:
     async def recv(self):
         await anyio.sleep(0)
         try:
-            return await self.inbox.get()
+            data = await self.inbox.get()
         except anyio.ClosedResourceError:
+            self.net.log.append(("sgone", self.net.loop.time(), self.local, self.remote))      # the reader learns that the stream is gone
             raise anyio.ClosedResourceError
+        self.net.log.append(("sread", self.net.loop.time(), self.local, self.remote, data))      # one entry per chunk read
+        return data
 
     async def close(self):
         self.closed = True
